@@ -42,16 +42,19 @@ TOLERANCES = {
     "eps": "2^-52", "K": K_DEFAULT, "K(BesselI, LogBesselI, GammaP/Q/Lower/Upper, GammaP derivatives)": K_WIDE,
     "reference": "mpmath %d digits (working precision raised adaptively where a complement cancels)" % DPS,
     "overflow": "|ref| > MaxFloat64: +-Inf (right sign) or NaN accepted",
-    "underflow": "|ref| < 2^-1022: 0 accepted, absolute floor K*2^-1074",
+    "underflow": "|ref| < 2^-970 (= 2^-1022/eps, where a factor of the result may itself be subnormal): absolute error K*2^-1022 accepted (includes flush to zero)",
+    "poles": "NaN/Inf accepted when a pole lies within the relative distance K*eps of the argument",
+    "subnormal arguments": "judged like any other argument; their failures carry the branch label 'subnormal-argument' (Go's math.Log is wrong for subnormals on amd64)",
     "undefined": "poles / log of negative values: not judged",
     "recurrences": "sum of the members' tolerances (same conditioning rule) + 4 eps of the largest term",
-    "gross": "failure kind 'gross' = error > 0.1*(|ref|+cond); 'sign' = wrong sign with |got| > |ref|/2 and |ref| > 8 tol",
+    "gross": "failure kind 'gross' = error > 0.1*(|ref|+cond); 'sign' = sign opposite to a reference that is > 8 tol away from 0",
 }
 
 mp.mp.dps = DPS + 10
 FMAX = mpf(sys.float_info.max)
 MINNORM = mpf(2) ** -1022
 DENORM = mpf(2) ** -1074
+UFZONE = mpf(2) ** -970      # 2^-1022 / eps: a factor of such a result may itself be subnormal
 MAXLOG = 709.0
 MINLOG = -744.0
 FEPS = 2.0 ** -52
@@ -100,12 +103,20 @@ def fd(f, x, rel=mpf(10) ** -25):
 # incomplete gamma: own reference in mpf arithmetic
 # ---------------------------------------------------------------------------------------------
 
+def _exp_guard(lp, a):
+    """exp(lp) but exactly 0 when the result is far below every float even after scaling with Gamma(a)
+    (mp.exp of astronomically negative arguments is slow and the value is irrelevant)."""
+    if lp < -50000 - 2 * abs(a) * max(1, mp.log(a + 2)):
+        return mpf(0)
+    return mp.exp(lp)
+
+
 def _pq_at(a, x, dps):
     """(P, Q, direct) at working precision dps; direct = 'P' or 'Q' (the one computed without subtraction)."""
     with mp.workdps(dps):
         a = +a
         x = +x
-        tiny = mpf(10) ** (-dps - 5)
+        tiny = mpf(10) ** (-dps + 6)
         if x < a + 1:
             lp = a * mp.log(x) - x - mp.loggamma(a + 1)
             term = mpf(1)
@@ -119,7 +130,7 @@ def _pq_at(a, x, dps):
                     break
                 if n > 5000000:
                     raise ArithmeticError("series too long")
-            P = mp.exp(lp) * s
+            P = _exp_guard(lp, a) * s
             return P, 1 - P, "P"
         # modified Lentz for the Legendre continued fraction of Gamma(a,x)
         lp = a * mp.log(x) - x - mp.loggamma(a)
@@ -146,25 +157,28 @@ def _pq_at(a, x, dps):
                 break
             if i > 5000000:
                 raise ArithmeticError("continued fraction too long")
-        Q = mp.exp(lp) * h
+        Q = _exp_guard(lp, a) * h
         return 1 - Q, Q, "Q"
 
 
 def pq(a, x):
-    """regularised P(a,x), Q(a,x) for a > 0, x >= 0, both with >= DPS correct digits (or exactly 0 below 1e-400)."""
+    """regularised P(a,x), Q(a,x) for a > 0, x >= 0, both with >= DPS correct digits (or exactly 0 below 1e-700)."""
     if x == 0:
         return mpf(0), mpf(1)
-    dps = DPS + 10
-    P, Q, direct = _pq_at(a, x, dps)
-    other = Q if direct == "P" else P
-    # digits lost in the complement
-    if other == 0:
-        lost = dps
-    else:
-        lost = max(0, -int(mp.floor(mp.log10(abs(other)))))
-    if lost > 8:
-        need = min(lost, 420) + DPS + 10
-        P, Q, direct = _pq_at(a, x, need)
+    dps = DPS + 20
+    if a < 1 and x < a + 1:
+        dps += min(700, int(-mp.log10(a)) + 5)   # Q = 1 - P ~ a * E1(x): that many digits cancel
+    while True:
+        P, Q, direct = _pq_at(a, x, dps)
+        other = Q if direct == "P" else P
+        # digits lost in the complement
+        if other == 0:
+            lost = dps
+        else:
+            lost = max(0, -int(mp.floor(mp.log10(abs(other)))))
+        if dps - lost >= DPS + 8 or dps >= 800:
+            break
+        dps = min(800, max(lost + DPS + 20, 2 * dps))
     return +P, +Q
 
 
@@ -185,7 +199,7 @@ def ref_gammainc(fn, a, x):
         def dpx():
             if x == 0:
                 return mpf(0)
-            return mp.exp((a - 1) * mp.log(x) - x - _lg(a))
+            return _exp_guard((a - 1) * mp.log(x) - x - _lg(a), a)
 
         def dpa():
             return fd(lambda t: pq(t, x)[0], a)
@@ -205,7 +219,7 @@ def ref_gammainc(fn, a, x):
             if a == 1:
                 return Ref(mpf(1), None, K)
             return Ref(mp.inf, None, K)
-        f = mp.exp((a - 1) * mp.log(x) - x - _lg(a))
+        f = _exp_guard((a - 1) * mp.log(x) - x - _lg(a), a)
         return Ref(f, lambda: abs(x * f * ((a - 1) / x - 1)) + abs(a * f * (mp.log(x) - mp.psi(0, a))), K)
     if fn == "GammaPsecondDerivative":
         if x == 0:
@@ -218,7 +232,7 @@ def ref_gammainc(fn, a, x):
             if a == 1:
                 return Ref(mpf(-1), None, K)
             return Ref(-mp.inf, None, K)
-        f = mp.exp((a - 1) * mp.log(x) - x - _lg(a))
+        f = _exp_guard((a - 1) * mp.log(x) - x - _lg(a), a)
         u = (a - 1) / x - 1
         g = f * u
         return Ref(g, lambda: abs(x * f * (u * u - (a - 1) / (x * x))) + abs(a * (f * (mp.log(x) - mp.psi(0, a)) * u + f / x)), K)
@@ -233,14 +247,48 @@ def is_int(x):
     return x == mp.floor(x)
 
 
+_COT = {0: [0, 1]}   # C_n: d^n/dx^n cot(pi x) = pi^n C_n(cot(pi x)); integer coefficients, lowest degree first
+
+
+def cot_poly(n):
+    """C_0(c) = c,  C_{k+1}(c) = -(1 + c^2) C_k'(c)."""
+    k = max(i for i in _COT if i <= n)
+    p = _COT[k]
+    while k < n:
+        d = [i * p[i] for i in range(1, len(p))]          # derivative
+        q = [0] * (len(d) + 2)
+        for i, c in enumerate(d):
+            q[i] -= c
+            q[i + 2] -= c
+        p = q
+        k += 1
+        _COT[k] = p
+    return p
+
+
+def psi_n(n, x):
+    """polygamma of order n at real non-pole x; reflection psi_n(x) = (-1)^n psi_n(1-x) - pi^(n+1) C_n(cot(pi x))
+    for x < -8 (mpmath walks the recurrence there, one step per unit), mpmath otherwise."""
+    if x > -8:
+        return mp.psi(n, x)
+    with mp.workdps(mp.mp.dps + 30):
+        c = mp.cospi(x) / mp.sinpi(x)
+        p = cot_poly(n)
+        acc = mpf(0)
+        for coef in reversed(p):
+            acc = acc * c + coef
+        r = (-1) ** n * mp.psi(n, 1 - x) - mp.pi ** (n + 1) * acc
+    return +r
+
+
 def ref_polygamma(n, x):
     if x <= 0 and is_int(x):
         return Ref(UNDEF)
     try:
-        v = mp.psi(n, x)
+        v = psi_n(n, x)
     except (ZeroDivisionError, ValueError):
         return Ref(UNDEF)
-    return Ref(v, lambda: x * mp.psi(n + 1, x))
+    return Ref(v, lambda: x * psi_n(n + 1, x))
 
 
 def ref_zeta(s):
@@ -274,7 +322,12 @@ def ref_logerfc(x):
         v = -x * x - mp.log(x * mp.sqrt(mp.pi)) + mp.log1p(-u + 3 * u * u - 15 * u ** 3)
         return Ref(v, lambda: x * (-2 * x - 1 / x))
     e = mp.erfc(x)
-    v = mp.log(e)
+    if abs(x) < 1:
+        with mp.workdps(mp.mp.dps + 330):   # erfc(x) = 1 - erf(x): keep the digits of erf down to |x| = 1e-308
+            v = mp.log1p(-mp.erf(x))
+        v = +v
+    else:
+        v = mp.log(e)
     return Ref(v, lambda: x * (-2 * mp.exp(-x * x) / (mp.sqrt(mp.pi) * e)))
 
 
@@ -330,6 +383,8 @@ def ref_lgamma(x):
 
 def _besseli(v, x):
     """I_v(x) for real v, x >= 0, or x < 0 and integer v."""
+    if v < 0 and is_int(v):
+        v = -v  # I_{-n} = I_n; mpmath evaluates negative integer orders as a (slow, cancelling) limit
     if x < 0:
         r = mp.besseli(v, -x)
         return -r if int(v) % 2 != 0 else r
@@ -358,14 +413,21 @@ def ref_besseli(v, x, log):
     def dx():
         return _besseli(v + 1, x) + v / x * I
     def dv():
-        return fd(lambda t: mp.besseli(t, abs(x)), v)
+        r = fd(lambda t: mp.besseli(t, abs(x)), v)
+        return r.real if isinstance(r, mp.mpc) else r
     if not log:
         return Ref(I, lambda: abs(x * dx()) + abs(v * dv()), K)
     if I < 0:
         return Ref(UNDEF)
     if I == 0:
         return Ref(-mp.inf, None, K)
-    return Ref(mp.log(I), lambda: abs(x * dx() / I) + abs(v * dv() / I), K)
+    L = mp.log(I)
+    if abs(I - 1) < mpf(10) ** -8:
+        # log I cancels: re-evaluate I with as many extra digits as are lost (I - 1 ~ v log(x/2) + x^2/4)
+        with mp.workdps(mp.mp.dps + 700):
+            L = mp.log1p(_besseli(v, x) - 1)
+        L = +L
+    return Ref(L, lambda: abs(x * dx() / I) + abs(v * dv() / I), K)
 
 
 def ref_sinpi(x):
@@ -451,10 +513,8 @@ def a_band(a):
         return "a<1"
     if a < 10:
         return "1<=a<10"
-    if a < 30:
-        return "10<=a<30"
     if a < 170:
-        return "30<=a<170"
+        return "10<=a<170"
     return "a>=170"
 
 
@@ -480,7 +540,7 @@ def ginc_method(a, x, normalised, invert):
     if x < FEPS and a > 1:
         return "tiny-x"
     if x < 0.5:
-        if x > 0 and -0.4 / math.log(x) < a or x == 0:
+        if x == 0 or -0.4 / math.log(x) < a:
             return "series"
         return "small-a-upper"
     if x < 1.1:
@@ -497,19 +557,44 @@ def ginc_method(a, x, normalised, invert):
     return "cf"
 
 
-def region(fn, ns, xs):
-    """(branch label, argument class) of an evaluation; xs are Python floats."""
+def x_band(x, cuts):
+    """label of the first cut that x does not exceed."""
+    for c, name in cuts:
+        if x <= c:
+            return name
+    return cuts[-1][1].replace("<=", ">")
+
+
+def region(fn, ns, xs, refval=None):
+    """(branch label, argument class) of an evaluation; xs are Python floats.  Labels only name the cell a
+    failure is filed under, they never take part in a verdict."""
+    br, ac = region0(fn, ns, xs)
+    if fn == "LogBesselI" and refval is not None and refval is not UNDEF and mp.isfinite(refval) and abs(refval) < 2.0 ** -10:
+        ac += ",|log I|<2^-10"   # I ~ 1: the logarithm is computed to absolute, not relative, accuracy
+    return br, ac
+
+
+def region0(fn, ns, xs):
+    if any(x != 0 and abs(x) < 2.0 ** -1022 for x in xs):
+        return "subnormal-argument", "-"
     if fn in ("GammaP", "GammaQ", "GammaLower", "GammaUpper"):
         a, x = xs
         normalised = fn in ("GammaP", "GammaQ")
         invert = fn in ("GammaQ", "GammaUpper")
-        oc = order_class(a)
-        return ginc_method(a, x, normalised, invert), a_band(a) + ("" if oc == "frac" else "," + oc)
+        if x == 0:
+            return "x=0", a_band(a)
+        m = ginc_method(a, x, normalised, invert)
+        if m.endswith("cf") and a < 10 and x > 1e30:
+            m += ":x>1e30"   # small-a prefix: (x/10)^a overflows while exp(10-x) underflows
+        return m, a_band(a)
     if fn in ("GammaPfirstDerivative", "GammaPsecondDerivative"):
         a, x = xs
         if x == 0:
             return "x=0", ("a<1" if a < 1 else "a=1" if a == 1 else "a>1")
-        return ("prefix:a<10" if a < 10 else "prefix:a>=10"), a_band(a)
+        xb = "x<=1e-100" if x <= 1e-100 else "x<=1e-10" if x <= 1e-10 else "x>1e-10"
+        if a < 10:
+            return ("prefix:a<10" + (":x>1e30" if x > 1e30 else "")), a_band(a) + "," + xb
+        return "prefix:a>=10", a_band(a) + "," + xb
     if fn == "Digamma" or (fn == "Polygamma" and ns[0] == 0):
         x = xs[0]
         pre = ""
@@ -556,41 +641,44 @@ def region(fn, ns, xs):
         return pre + br, ("n<=20" if n <= 20 else "n>20")
     if fn in ("BesselI", "LogBesselI"):
         v, x = xs
-        vc = ("v=0" if v == 0 else "v>0" if v > 0 else "v<0") + "," + order_class(v)
         pre = ""
         if x < 0:
             pre = "x<0>"
             x = -x
         if x == 0:
-            return pre + "x=0", vc
+            return pre + "x=0", ("v=0" if v == 0 else "v>0" if v > 0 else "v<0," + ("int" if v == math.floor(v) else "non-int"))
+        xb = x_band(x, ((1e-100, "x<=1e-100"), (2, "x<=2"), (100, "x<=100"), (708, "x<=708")))
         if v == 0.5:
-            return pre + "v=1/2", vc
+            return pre + "v=1/2", xb
         if v == 0 or v == 1:
-            return pre + ("i01:x<7.75" if x < 7.75 else "i01:x<500" if x < 500 else "i01:x>=500"), vc
+            return pre + ("i01:x<7.75" if x < 7.75 else "i01:x<500" if x < 500 else "i01:x>=500"), xb
         if v > 0 and x / v < 0.25:
-            return pre + "small-z-series", vc
+            return pre + "small-z-series", xb
         av = abs(v)
         k = "temme" if x <= 2 else "cf2"
-        lim = ((4.0 * av * av + 10.0) / (8.0 * x)) ** 4 / 24.0
+        try:
+            lim = ((4.0 * av * av + 10.0) / (8.0 * x)) ** 4 / 24.0
+        except OverflowError:
+            lim = math.inf
         if lim < FEPS * 10 and x > 100:
             i = "asymptotic"
         elif av > 0 and x / av < 0.25:
             i = "small-z-series"
         else:
             i = "cf1"
-        return pre + ("reflect>" if v < 0 else "") + k + "+" + i, vc
+        return pre + ("reflect>" if v < 0 else "") + k + "+" + i, xb
     if fn == "Zeta":
         s = xs[0]
         if s > 53:
             return "s>53", "s>53"
         if s == math.floor(s):
             if s < 0:
-                return "integer", ("s<0,odd" if int(-s) & 1 else "s<0,even")
+                return "integer", ("s<0,odd" if int(-s) & 1 else "s<0,even") + (",s<=-250" if s <= -250 else "")
             return "integer", ("s>=0,even" if int(s) & 1 == 0 else "s>=0,odd")
         if abs(s) < 1.49012e-08:
             return "|s|<sqrt(eps)", "s~0"
         if s < 0:
-            return ("reflect:logs" if 1 - s > 21 else "reflect:gamma"), ("s<-100" if s < -100 else "-100<=s<0")
+            return ("reflect:logs" if 1 - s > 21 else "reflect:gamma"), ("s<=-250" if s <= -250 else "-250<s<-100" if s < -100 else "-100<=s<0")
         for hi in (1, 2, 4, 7, 15, 36, 56):
             if s <= hi:
                 return "prec:s<=%d" % hi, "s>0"
@@ -603,20 +691,22 @@ def region(fn, ns, xs):
         return "akiyama-tanigawa", ("n<=1" if n <= 1 else "even" if n % 2 == 0 else "odd")
     if fn in ("Mgamma", "Mlgamma"):
         k = ns[0]
-        return "product", ("k=1" if k == 1 else "k<=4" if k <= 4 else "k>4")
+        x = xs[0]
+        d = x - (k - 1) / 2.0
+        return "product", ("k=1" if k == 1 else "k>1") + (",x-(k-1)/2<2^-20" if d < 2.0 ** -20 else ",x-(k-1)/2<1" if d < 1 else ",x-(k-1)/2>=1")
     if fn == "LogErfc":
         x = xs[0]
         if x * x < 2.4607833005759251e-02:
             return "series-at-0", "|x|<0.157"
         if x > 8:
-            return "rational-x>8", ("8<x<2^170" if x < 2.0 ** 170 else "x>=2^170")
+            return "rational-x>8", ("8<x<1e51" if x < 1e51 else "x>=1e51")
         return "log(erfc)", ("x<0" if x < 0 else "0<x<=8")
     if fn in ("LogAdd", "LogSub"):
         a, b = xs
         if math.isinf(a) or math.isinf(b):
             return "inf-argument", "-inf"
         d = abs(a - b)
-        return "log1p(exp)", ("equal" if d == 0 else "|a-b|<1" if d < 1 else "|a-b|<40" if d < 40 else "|a-b|>=40")
+        return "log1p(exp)", ("equal" if d == 0 else "|a-b|<2^-20" if d < 2.0 ** -20 else "|a-b|<1" if d < 1 else "|a-b|<40" if d < 40 else "|a-b|>=40")
     if fn in ("Gamma", "Lgamma"):
         x = xs[0]
         return "math." + fn, ("x<0" if x < 0 else "x<1" if x < 1 else "x<172" if x < 172 else "x>=172")
@@ -648,7 +738,21 @@ def fmt_args(ns, xs):
     return ", ".join([str(n) for n in ns] + [repr(x) for x in xs])
 
 
-def judge_value(got, ref):
+def near_pole(fn, ns, xs, K):
+    """True when a pole of the function lies within the relative distance K*eps of an argument: there the
+    conditioning neighbourhood of the argument contains the pole and NaN/Inf is as good as any other value."""
+    def negint(t):
+        return t < 0 and abs(t - round(t)) <= K * EPS * abs(t)
+    if fn in ("Digamma", "Trigamma", "Polygamma", "Gamma", "Lgamma"):
+        return negint(xs[0])
+    if fn in ("Mgamma", "Mlgamma"):
+        return any(negint(xs[0] + (1 - i) / 2.0) or abs(xs[0] + (1 - i) / 2.0) <= K * EPS * abs(xs[0]) for i in range(1, ns[0] + 1))
+    if fn == "Zeta":
+        return abs(xs[0] - 1) <= K * EPS
+    return False
+
+
+def judge_value(got, ref, pole=False):
     """returns (status, kind, info): status in pass / fail / undefined / overflow-ok / underflow-ok / singular-ok"""
     rv = ref.val
     if rv is UNDEF:
@@ -673,6 +777,8 @@ def judge_value(got, ref):
         if abs(g - rv) <= ref.tol(True):
             return "overflow-ok", None, ""
         return "fail", "accuracy", "finite value where the function overflows (ref %s)" % mp.nstr(rv, 8)
+    if (math.isnan(got) or math.isinf(got)) and pole:
+        return "near-pole-ok", None, ""
     if math.isnan(got):
         return "fail", "nan", ""
     if math.isinf(got):
@@ -683,16 +789,13 @@ def judge_value(got, ref):
     err = abs(g - rv)
     if err <= ref.tol(False):
         return "pass", None, ""
-    if arv < MINNORM:
-        if got == 0 or err <= ref.tol(False) + ref.K * DENORM:
-            return "underflow-ok", None, ""
+    if arv < UFZONE and err <= ref.K * MINNORM:
+        return "underflow-ok", None, ""
     tol = ref.tol(True)
     if err <= tol:
         return "pass-cond", None, ""
-    if arv < MINNORM and err <= tol + ref.K * DENORM:
-        return "underflow-ok", None, ""
     scale = arv + ref.cond()
-    if g != 0 and rv != 0 and (g > 0) != (rv > 0) and abs(g) > arv / 2 and arv > 8 * tol:
+    if g != 0 and rv != 0 and (g > 0) != (rv > 0) and arv > 8 * tol:
         kind = "sign"
     elif err > scale / 10:
         kind = "gross"
@@ -750,13 +853,20 @@ def judge_case(cid, evs, acc):
         got = parse_float(res)
         try:
             ref = reference(fn, ns, tuple(to_mp(x) for x in xs))
-            status, kind, info = judge_value(got, ref)
+            status, kind, info = judge_value(got, ref, near_pole(fn, ns, xs, ref.K))
         except Exception as ex:
             acc.c("reference-unavailable:" + fn)
             table[key] = {"got": got, "ref": None, "status": "noref", "xs": xs, "ns": ns}
             continue
         table[key] = {"got": got, "ref": ref, "status": status, "xs": xs, "ns": ns}
         if status == "fail":
+            try:
+                br, ac = region(fn, ns, xs, ref.val)
+            except Exception:
+                pass
+            sigbase = "C13|%s|%s|%s|%s|" % (fam, fn, br, ac)
+            if br == "subnormal-argument":
+                kind = "wrong"
             refs = mp.nstr(ref.val, 20) if ref.val is not UNDEF else UNDEF
             acc.viol.append({"case": cid, "sig": sigbase + kind,
                              "detail": "%s = %r, reference %s; %s" % (call, got, refs, info),
